@@ -75,6 +75,11 @@ def failing():
     F['probe-garbage'] = ('server', c)
     c = peers.ServerCfg(base); c['mutate'] = _mut(2, 'kexreply', lambda d: [struct.pack('>I', struct.unpack('>I', d[:4])[0] + 3) + d[4:], fakenet.EOF])
     F['probe-bad-block-size'] = ('server', c)
+    g = peers.ServerCfg(base)
+    g['kexinit'] = dict(base['kexinit'], kex=['curve25519-sha256', 'diffie-hellman-group-exchange-sha256', 'kex-strict-s-v00@openssh.com'])
+    g['gex'] = {'style': 'roundup', 'moduli': [4096]}
+    g['mutate'] = _mut(None, 'gexgroup', lambda d: [fakenet.STALL])
+    F['gex-probe-silent'] = ('server', g)
     return F
 
 
@@ -181,8 +186,13 @@ def run(tier):
     for sc, m, r in zip(scs, meta, results):
         lst, k, js, labels = m
         ck.evaluated()
-        if r.get('harness_error') or r.get('hang'):
-            raise common.Machinery('multi-target run failed: %r' % (r.get('harness_error') or 'hang'))
+        if r.get('harness_error'):
+            raise common.Machinery('multi-target run failed: %r' % r.get('harness_error'))
+        if r.get('hang'):
+            ck.violation('run-never-ends with=%s' % '+'.join(sorted(set(n for n in lst if n in F))),
+                         'list %r, %d thread(s): the run never ended (a read with no time limit on a peer that stays silent, or no progress within the harness watchdog): some wait has no bound' % (lst, k),
+                         {'targets': lst, 'threads': k, 'json': js, 'argv': sc['argv']})
+            continue
         ck.nontrivial((lst, k, js))
         bad_names = [n for n in lst if n in F]
         tag = 'with=%s' % '+'.join(sorted(set(bad_names))) if bad_names else 'healthy-only'
